@@ -73,6 +73,31 @@ fn main() {
             let id = args[2].clone();
             let ctx = make_ctx(&id, Tier::Thorough, true);
             install_traps(&id, &ctx.verif.join("failures"));
+            // raw libFuzzer artifact (not JSON): decode the bytes exactly as the fuzz target does
+            let raw = std::fs::read(&args[3]).unwrap_or_default();
+            let is_json = serde_json::from_slice::<Value>(&raw).map(|v| v.get("case").is_some()).unwrap_or(false);
+            if !is_json && std::path::Path::new(&args[3]).file_name().map(|f| f.to_string_lossy().starts_with("fuzz-")).unwrap_or(false) {
+                let code = match hv::fuzzdecode::target_for(&id) {
+                    None => {
+                        println!("INCONCLUSIVE property {} has no fuzz target", id);
+                        2
+                    }
+                    Some(t) => match guarded("fuzz-replay", || hv::fuzzdecode::run(t, &raw)) {
+                        Ok(Ok(())) => {
+                            println!("replay passed: property={} file={}", id, args[3]);
+                            0
+                        }
+                        Ok(Err(f)) | Err(f) => {
+                            println!("replay failed [{}]: {}", f.sig, f.msg);
+                            println!("VIOLATION property={} replay={}", id, args[3]);
+                            1
+                        }
+                    },
+                };
+                cleanup(&ctx);
+                mark_finished();
+                std::process::exit(code);
+            }
             let text = match std::fs::read_to_string(&args[3]) {
                 Ok(t) => t,
                 Err(e) => {
@@ -89,6 +114,7 @@ fn main() {
                     std::process::exit(2);
                 }
             };
+            let _ = &v;
             let code = match props::prepare(&ctx).and_then(|_| props::replay(&ctx, &v)) {
                 Err(e) => {
                     println!("INCONCLUSIVE {}", e);
@@ -226,6 +252,16 @@ fn run_check(ctx: &Ctx) -> i32 {
     // 2. generated-input search
     if !out.failed() {
         (info.run)(ctx, &mut out);
+        if ctx.tier == Tier::Thorough {
+            if let Some(target) = hv::fuzzdecode::target_for(&ctx.id) {
+                let (runs, max_len) = match target {
+                    "fz_c04" => (1_000_000, 400),
+                    "fz_c01" => (150_000, 160),
+                    _ => (25_000, 96),
+                };
+                fuzz_stage(ctx, &mut out, target, runs, ctx.workers, max_len);
+            }
+        }
         for (f, p) in &out.violations {
             println!("violation [{}]: {}", f.sig, f.msg);
             println!("VIOLATION property={} replay={}", ctx.id, p.display());
